@@ -254,3 +254,8 @@ Definition find_potential_matches (src tgt : sset) (conf : f64) : list range :=
   let mr := get_matched_ranges src tgt conf in
   let threshold := trunc (fmul conf (of_Z (Z.of_N (ss_len src)))) in
   take_while_claimed threshold mr.
+
+(* computeQ (v2/document.go): minimum q-gram length implied by the threshold *)
+Definition compute_q (thr : f64) : Z :=
+  if feq thr fone then 10%Z
+  else Z.max 1 (trunc (fdiv thr (fsub fone thr))).
